@@ -19,7 +19,8 @@ RULE = ('(a) generated block bodies (reads/sets/replaces/deletes/pops/pulls/incr
         'run on shared/separate objects; blocks are checked as composite atomic operations (linearizability), snapshot '
         'readers must never see a mixed stamp, and a second thread on the same object must wait or time out. '
         'evaluations = (body, raise point) executions + schedules; distinct_nontrivial = distinct (container, '
-        'exception type, operation mix at the raise point) cells + distinct schedules with a preemption inside a block')
+        'exception type, operation mix at the raise point) cells + distinct schedules with a preemption inside a block'
+        ' Plus: calls that FAIL inside a block and are caught by the body (unbindable tag, incr of text, bad expire) have no effect, block committed or abandoned (read-out and check()).')
 DISTINCT = ('abort_cells', 'block_schedules', 'block_plan_schedules')
 REQUIRED = ('calls_failing_inside_blocks', 'blocks_with_failing_calls_committed', 'blocks_with_failing_calls_abandoned', 'block_schedules_through_a_sharded_cache', 'block_plan_schedules_judged', 'aborts_judged', 'commits_judged', 'nested_blocks', 'aborted_after_file_removal', 'aborted_after_file_write',
             'deque_blocks', 'index_blocks', 'fanout_blocks', 'block_schedules_run', 'snapshot_reads',
